@@ -1,6 +1,6 @@
 #!/bin/bash
 # usage: tools/teeth.sh <ID> <tier> <file-relative-to-repo> <python-regex-old> <new>   (one substitution, must match exactly once)
-#    or: tools/teeth.sh <ID> <tier> --patch <patch.diff>
+#    or: tools/teeth.sh <ID> <tier> --patch <patch.diff>      (apply)   |  --reverse <patch.diff>   (un-apply, e.g. a fix)
 # Applies a mutation to a scratch copy of /repo (never /repo itself), runs the check against it via
 # VERIF_REPO, prints the check's exit code, and removes the copy.
 set -u
@@ -8,7 +8,9 @@ ID=$1; TIER=$2; shift 2
 S=/tmp/scratch/teeth.$$
 mkdir -p /tmp/scratch
 rsync -a --exclude .git /repo/ $S/
-if [ "$1" = "--patch" ]; then
+if [ "$1" = "--reverse" ]; then
+  (cd $S && patch -R -p1 -s < "$2") || { echo "reverse patch failed"; rm -rf $S; exit 3; }
+elif [ "$1" = "--patch" ]; then
   (cd $S && patch -p1 -s < "$2") || { echo "patch failed"; rm -rf $S; exit 3; }
 else
   python3 - "$S/$1" "$2" "$3" <<'PY' || { rm -rf $S; exit 3; }
